@@ -16,7 +16,8 @@ DEPTH = {'quick': dict(emph=6, block=4, link=4, html=4, misc=3, code=4, uni=3, w
          'thorough': dict(emph=9, block=5, link=5, html=5, misc=5, code=6, uni=5, wiki=6)}
 LINES_K = {'quick': 3, 'thorough': 4}
 CONTRIB = ['Toc', 'GithubWiki', 'MathJax', 'Pygments']
-LINES18 = spaces.LINES + spaces.LINES_C01_EXTRA + ['it\'s "q" <b>x</b> & c', '[l\'k](</u v> "t\'")']
+# '</body>' / '<head>': raw HTML that a renderer which post-processes the finished page might look for
+LINES18 = spaces.LINES + spaces.LINES_C01_EXTRA + ['it\'s "q" <b>x</b> & c', '[l\'k](</u v> "t\'")', '</body>', 'a </body> b <head>']
 OPTS = [dict(html_escape_double_quotes=a, html_escape_single_quotes=b) for a in (False, True) for b in (False, True)]
 WIKI = re.compile(r'\[\[.*\|.*\]\]', re.DOTALL)
 MATHJAX_SRC = '<script src="https://cdnjs.cloudflare.com/ajax/libs/mathjax/2.7.0/MathJax.js?config=TeX-MML-AM_CHTML"></script>\n'
